@@ -162,9 +162,10 @@ def _c01_sutra(mon, s):
 def c03(mon, s):
     cfg = config(s)
     ec, sp, wb = s.economics, s.surfaceplant, s.wellbores
-    if cfg['eclass'] != 'Economics':
+    if cfg['eclass'] not in ('Economics', 'SBTEconomics'):
         mon.note('c03-skip-economics-class:' + str(cfg['eclass']))
         return
+    sbt = cfg['eclass'] == 'SBTEconomics'
     eu, pt, L = cfg['enduse'], cfg['ptype'], cfg['life']
     nprod, ninj = int(wb.nprod.value), int(wb.ninj.value)
     comp = {k: float(getattr(ec, k).value) for k in ('Cwell', 'Cstim', 'Cplant', 'Cgath', 'Cexpl', 'Cpiping')}
@@ -203,6 +204,13 @@ def c03(mon, s):
         mon.eq('user-component-used', c1i, want_inj, mechanism='C03/user-fixed-well-cost-not-used', which='injection well')
         mon.eq('wellfield', comp['Cwell'], c1p * nprod + c1i * ninj, mechanism='C03/wellfield-not-wells-times-cost',
                fixed=True)
+    elif sbt:
+        # closed-loop economics: the 5 % indirect-cost factor is already inside each reported per-well / lateral / junction cost
+        junc = float(ec.cost_to_junction_section.value) if ec.has('cost_to_junction_section') else 0.0
+        mon.note('c03-sbt-wellfield')
+        mon.eq('wellfield', comp['Cwell'], c1p * nprod + c1i * ninj + lat + junc, rel=1e-9,
+               mechanism='C03/wellfield-not-wells-times-cost:SBT', fixed=False, c1p=c1p, c1i=c1i, nprod=nprod, ninj=ninj,
+               lat=lat, junction=junc)
     else:
         mon.eq('wellfield', comp['Cwell'], 1.05 * (c1p * nprod + c1i * ninj + lat), rel=1e-9,
                mechanism='C03/wellfield-not-wells-times-cost', fixed=False, c1p=c1p, c1i=c1i, nprod=nprod, ninj=ninj, lat=lat)
